@@ -1,5 +1,6 @@
 INIT GInit
 NEXT GNext
 CONSTANT Mode = "fixed"
+CONSTANT IntoMode = "faithful"
 CONSTANT Tier = "quick"
 CHECK_DEADLOCK FALSE
